@@ -161,6 +161,35 @@ def check(F, rep, tier):
             if good: rep.ok("R01.4", "push into %s guarded by !is_empty()" % tgt, sample=site, nontrivial_key=key)
             else: rep.bad("R01.4", "empty-identifier:" + key, "an identifier is pushed into %s without a non-empty guard (an empty identifier is invalid in both grammars)" % tgt, site)
     rep.floor("R01.4", "identifier pushes on the rendering path", n_push, 4)
+    # ---- R01.6 a PEP 440 version always has a release segment ---------------------------------------
+    pf = F.find(FROMS[1])
+    if pf:
+        f = pf[0]
+        pushes = [(bi, t) for bi, t in f.calls() if (mir.callee(t) or "").endswith("Vec::<T, A>::push") and any(o.fields()[-1:] == ["release"] for o in mir.trace_op(f, t[2][0]))]
+        rep.floor("R01.6", "default release push in <PEP440 as From<Zerv>>::from", len(pushes), 1)
+        for bi, t in pushes:
+            recv = panics.okey(f, t[2][0])
+            good = False
+            for d, pol, dd in mir.guards_of(f, bi):
+                if d[0] == "call" and (d[1] or "").endswith("::is_empty") and pol is True:
+                    if panics.okey(f, d[2][2][0]) == recv: good = True
+            site = "%s bb%d line %s" % (f.where(), bi, f.blocks[bi]["line"])
+            if good: rep.ok("R01.6", "release gets a 0 exactly when the release vector itself is empty", sample=site, nontrivial_key="rel%d" % bi)
+            else: rep.bad("R01.6", "release-default-guard", "the default release component is pushed under a condition other than `release.is_empty()` of the version being built: an empty release segment can be printed", site)
+    # ---- R01.7 zero stripping cannot be bypassed by long digit runs (numeric identifiers without leading zeros) ----
+    san.zero_strip_result(F, rep, "R01.7")
+    san.zero_strip_paths(F, rep, "R01.7")
+    san.replace_result_origin(F, rep, "R01.1")
+    # ---- R01.5 stdout carries the version line only: logging and diagnostics go to stderr (shared with C13) -------
+    import c13
+    root = F.fn(c13.ROOT); rwa = F.fn(c13.RWA)
+    if rep.anchor("R01.5", c13.ROOT, root) and rep.anchor("R01.5", c13.RWA, rwa):
+        sub = core.Report("C01", rep.tier)
+        c13.stdout_rules(F, sub, cg, root, rwa, cg.closure([c13.ROOT]))
+        for v in sub.violations:
+            rep.bad("R01.5", v["key"].split(":", 1)[1], v["msg"], v["site"])
+        for r, d in sub.rules.items():
+            for _ in range(d["instances"] - d["violations"]): rep.ok("R01.5", "stdout discipline (%s)" % r)
     return core.finish(rep, explanation=EXPL, assumptions=ASSUME, trusted=TRUST)
 
 EXPL = ("Necessary conditions of 'every emitted version string is well-formed', decided on all paths of the rendering code: (R01.1) the sanitiser keeps only characters guarded by an ASCII-alphanumeric predicate; "
